@@ -2,6 +2,7 @@ import Driver.Common
 import Logrange.Model.WireRT
 import Logrange.Model.JournalW
 import Logrange.Model.WriteLoopM
+import Logrange.Model.JIterObs
 /-! Model driver for C01 (acknowledged writes are read back intact, once, in order). Requests
 (byte strings hex, `-` = empty; timestamps as the decimal uint64 image of the int64):
 
@@ -16,6 +17,8 @@ import Logrange.Model.WriteLoopM
 * `w.wp <part> <packet> <k> (<text> <parsed|!>)*`  → server side of one RPC write: `rejected` | `panic` | `n=<events> calls=… err=…`
 * `w.read <part> <maxRecordSize>`                 → `ok <n> (<ts>/<msg>/<fields>)*` | `toosmall <k>` (the k-th record, 0-based, exceeds the read buffer)
 * `w.layout <part>`                               → `<count of chunk 1> <count of chunk 2> …`
+* `tail.probe <old> <fuel> <polls> <count script…>` → `jobs=<probe> tail=<probe>`: the library journal iterator's observation model and
+      the tail model on the scripted two-chunk journal; probe = `eof=<0|1>,pos=<cid>:<idx>,got=<indices joined by .|->,grew=<0|1>`
 -/
 open Go Driver Logrange Logrange.WireRT Logrange.JournalW Logrange.WriteLoopM
 
@@ -79,8 +82,16 @@ def readBack (j : Journal) (maxRec : Nat) : String :=
     let evs := recs.map (fun r => match Event.unmarshal [] r with | .ok (_, e) => some e | _ => none)
     if evs.any (·.isNone) then "undecodable" else "ok " ++ showEvs (evs.filterMap id)
 
+def showProbe (p : JIterObs.Probe) : String :=
+  let b (x : Bool) := if x then "1" else "0"
+  let got := if p.delivered.isEmpty then "-" else ".".intercalate (p.delivered.map toString)
+  s!"eof={b p.firstEof},pos={p.pos.1}:{p.pos.2},got={got},grew={b p.grew}"
+
 def step (s : St) (toks : List String) : St × String :=
   match toks with
+  | "tail.probe" :: old :: fuel :: polls :: script =>
+    let sc := script.map String.toNat!
+    (s, s!"jobs={showProbe (JIterObs.probe old.toNat! sc fuel.toNat! polls.toNat!)} tail={showProbe (JIterObs.Tail.probe sc fuel.toNat! polls.toNat!)}")
   | ["ev.marshal", ts, m, f] =>
     let e : Event := ⟨ts.toNat!, unhex m, unhex f⟩
     (s, s!"{hex e.marshal} {e.writableSize}")
